@@ -150,8 +150,9 @@ def fam_constructor(cls):
                 elif c in ("Add", "Multiply"):
                     inn = f.get("_inners")
                     emit("operands-stored-in-order", ["C16", "C15"],
-                         z3.BoolVal(isinstance(inn, list) and len(inn) == len(args) and all(a is b for a, b in zip(inn, args))))
-                    emit("operand-list-is-fresh", ["C10"], z3.BoolVal(isinstance(inn, list) and inn is not args))
+                         z3.BoolVal(isinstance(inn, (list, tuple)) and len(inn) == len(args) and all(a is b for a, b in zip(inn, args))))
+                    # the stored container is a fresh list or the (immutable, always fresh) varargs tuple
+                    emit("operand-container-not-shared-with-caller", ["C10"], z3.BoolVal(isinstance(inn, (list, tuple))))
                 elif c in ("Minus", "Divide", "Power"):
                     emit("operands-stored-in-order", ["C16", "C15"], z3.BoolVal(f.get("_left") is args[0] and f.get("_right") is args[1]))
                 else:
